@@ -301,7 +301,7 @@ def run_synthetic(case, ctx):
                 e = El(uid=f'r{k}')
                 e.oms_id = 2 * k + 1
                 rpath.append(e)
-        spacing = G.pick(rng, [37.5e9, 50e9, 50e9, 75e9])
+        spacing = G.pick(rng, [37.5e9, 50e9, 50e9, 75e9, 43.75e9, 56.25e9, 33e9, 68.75e9])  # some not multiples of 12.5 GHz
         per_m = math.ceil(spacing / 12.5e9)
         nb_wl = G.pick(rng, [1, 1, 2, 3, 4])
         kind = G.pick(rng, ['free', 'free', 'free', 'fixed-nm', 'fixed-m', 'fixed-n', 'multi', 'multi-free-tail',
@@ -420,7 +420,7 @@ def run_planning(case, ctx):
     reqs = []
     for i in range(rng.randint(3, 14)):
         a, z = rng.sample(trx, 2)
-        spacing = G.pick(rng, [50e9, 50e9, 75e9, 37.5e9])
+        spacing = G.pick(rng, [50e9, 50e9, 75e9, 37.5e9, 43.75e9, 56.25e9, 62.5e9])
         nb = G.pick(rng, [1, 2, 8, 20, 40, 60])
         per_m = math.ceil(spacing / 12.5e9)
         kind = G.pick(rng, ['free', 'free', 'free', 'fixed-nm', 'fixed-m', 'multi'])
